@@ -1,4 +1,4 @@
-// C09 correspondence harness (uses harness/ceq_tree.h, CEQ_TREE_VERSION 5).
+// C09 correspondence harness (uses harness/ceq_tree.h, CEQ_TREE_VERSION 6).
 // Property C09: "Successful projection lands on the constraint manifold minimally".
 //
 // Every I line starts with  <fn> <seed> <case#> <rec#>  so that one record identifies the generated case; `--mode replay`
@@ -18,16 +18,23 @@
 //
 // Model-compared records (answered by lean/Drivers/C09.lean running SimbodyModel/C09.lean at Float):
 //   I projQ  s k r flags acc overshoot limit sig mHolo mQuats qerr0[mHolo+mQuats] Tp[mHolo]
-//                  status its anyChange limitExceeded threw normIn normOut quatErrAfter[mQuats]
-//   O projQ  normIn worstIndex status its anyChange limitExceeded threw normOut
+//                  status its anyChange limitExceeded threw restored normIn normOut quatErrAfter[mQuats]
+//   O projQ  normIn worstIndex status its anyChange limitExceeded threw restored normOut      (restored: q bitwise as passed in)
 //       the model recomputes normIn / worst index from qerr0 and the weights; when the skeleton takes an early exit
 //       (projection limit, nothing to do, quaternions only) it predicts every field; on the Newton path the observed
 //       fields must be ACCEPTED by the kind-K contract `acceptsQ` (else the driver answers REJECT).
 //   I projU / O projU   the same for projectU (uerr0, Tpv).
 //   I normq  s k r w x y z           / O normq  4 doubles      SimbodyMatterSubsystem::normalizeQuaternions on one Ball
 //   I packQ|packU s k r n nf free… all[n] packedIn[nf] base[n] / O … packed[nf] unpacked[n]   packFreeQ/unpackFreeQ (U)
-//   I minnorm s k r which m n nf free… A[m*n] tp[m] winv[n] b[m]  / T 1e-8 1e-10 / O minnorm x[n]
-//       x = correction actually applied (q_before - q_after, resp. u); model: Wu^-1 (Tp A Wu^-1)^+ Tp b on free columns
+//   I minnorm s k r which m n nf free… A[m*n] tp[m] Wu[n] u0[n] b[m]  / T 1e-8 1e-10 / O minnorm x[n]
+//       x = correction actually applied (q_before - q_after, resp. u); model: E (Tp A E)^+ Tp b on free columns with the
+//       column scale E computed BY THE MODEL: 1/Wu (position), uRelScale(u0,Wu) (velocity)
+//   I minnormN s k r m nq nu nf free… Pq[m*nq] N[nq*nu] NInv[nu*nq] Tp[m] Wu[nu] perr[m] / T 1e-8 1e-10 / O minnormN dq[nq]
+//       the same for mobilizers with N != identity (stream linearN): model  S = N Wu^-1 N^+,  dq = S (Tp Pq S)_r^+ Tp perr
+//   I dispatch s k r accuracy threwQ threwU / O dispatch effAcc overshoot limit flags threw same
+//       System::project(state, accuracy) against the documented call sequence with the options the model states
+//   I normqP s k r free1 free2 q1(4) q2(4) / O normqP 8 doubles   normalizeQuaternions skips a prescribed (locked) quaternion
+//   I errq s k r quat(4) errEst(4) / O errq quat'(4) errEst'(4)   projectQ on a free Ball with a q error estimate
 //   I projQt s k r flags acc overshoot limit sig mHolo mQuats Tp[mHolo] nEv {event iter n vals[n]}…  / O projQt <as projQ>
 //   I projUt s k r flags acc overshoot limit sig m Tpv[m] nEv {event iter n vals[n]}…               / O projUt <as projU>
 //       ONLY when the library exports the per-iteration hook `SimTK_verif_projectTrace` (notes/C09_hook.patch; looked
@@ -44,6 +51,7 @@
 //   prescribed_kept prescribed q's bitwise equal to what prescribeQ put there (and to the lock value)
 //   q_untouched     projectU leaves every q bitwise unchanged
 //   unchanged       entry norms <= accuracy and not forced: q (u) bitwise unchanged and anyChangeMade == false
+//   forced_iterates ForceProjection and a nonzero error norm on entry: at least one iteration is made (anyChangeMade)
 //   minnorm_kkt     Wu*dq lies in the row space of (Pq Wu^-1) restricted to free columns (KKT of the weighted min-norm)
 //   minnorm_solves  Pq dq == perr0 (the correction removes the whole linear error)
 #include "ceq_tree.h"
@@ -77,7 +85,7 @@ double normOf(const Vector& e, int off, int n, const Vector* w, bool useInf) {
     return useInf ? mx : std::sqrt(s / n);
 }
 
-struct Outcome { int status = -1, its = 0, worst = -1; bool anyChange = false, limEx = false, threw = false; double normIn = kNaN, normOut = kNaN; };
+struct Outcome { int status = -1, its = 0, worst = -1; bool anyChange = false, limEx = false, threw = false, restored = false; double normIn = kNaN, normOut = kNaN; };
 
 int flagsOf(const ProjectOptions& o) {
     return (o.isOptionSet(ProjectOptions::LocalOnly) ? 1 : 0) | (o.isOptionSet(ProjectOptions::DontThrow) ? 2 : 0) |
@@ -100,24 +108,25 @@ struct TraceEv { int which, event, iter; std::vector<double> v; };
 std::vector<TraceEv> g_trace;
 void collectTrace(int which, int event, int iter, const double* e, int n) { g_trace.push_back({which, event, iter, std::vector<double>(e, e + n)}); }
 
-Outcome callQ(const MultibodySystem& sys, State& s, const ProjectOptions& o) {
-    ProjectResults r; Vector none; bool threw = false;
+Outcome callQ(const MultibodySystem& sys, State& s, const ProjectOptions& o, Vector& errEst) {
+    ProjectResults r; bool threw = false;
     g_trace.clear(); if (g_traceVar) *g_traceVar = collectTrace;
-    try { sys.projectQ(s, none, o, r); } catch (const std::exception&) { threw = true; }
+    try { sys.projectQ(s, errEst, o, r); } catch (const std::exception&) { threw = true; }
     if (g_traceVar) *g_traceVar = nullptr;
     return fill(r, threw);
 }
-Outcome callU(const MultibodySystem& sys, State& s, const ProjectOptions& o) {
-    ProjectResults r; Vector none; bool threw = false;
+Outcome callU(const MultibodySystem& sys, State& s, const ProjectOptions& o, Vector& errEst) {
+    ProjectResults r; bool threw = false;
     g_trace.clear(); if (g_traceVar) *g_traceVar = collectTrace;
-    try { sys.projectU(s, none, o, r); } catch (const std::exception&) { threw = true; }
+    try { sys.projectU(s, errEst, o, r); } catch (const std::exception&) { threw = true; }
     if (g_traceVar) *g_traceVar = nullptr;
     return fill(r, threw);
 }
 
 ProjectOptions randomOptions(vh::Rng& g, bool alwaysDontThrow = false) {
     ProjectOptions o;
-    o.setRequiredAccuracy(std::pow(10.0, -(3 + g.below(8))) * g.range(1.0, 3.0));   // 1e-3 .. 1e-10
+    if (g.below(16) == 0) o.setRequiredAccuracy(g.coin() ? 0.0 : -g.range(1e-9, 1.0));   // non-positive request -> default 1e-4
+    else o.setRequiredAccuracy(std::pow(10.0, -(3 + g.below(8))) * g.range(1.0, 3.0));  // 1e-3 .. 1e-10
     if (g.below(3) == 0) o.setOption(ProjectOptions::ForceProjection);
     if (g.coin()) o.setOption(ProjectOptions::UseInfinityNorm);
     if (g.below(3) == 0) o.setOption(ProjectOptions::LocalOnly);
@@ -133,7 +142,7 @@ void putOpts(vh::Line& L, const ProjectOptions& o) {
 }
 void putOutcome(vh::Line& L, const Outcome& r, bool withNormIn) {
     if (withNormIn) L.d(r.normIn).i(r.worst);
-    L.i(r.status).i(r.its).i(r.anyChange).i(r.limEx).i(r.threw);
+    L.i(r.status).i(r.its).i(r.anyChange).i(r.limEx).i(r.threw).i(r.restored);
 }
 
 struct Ctx;
@@ -182,7 +191,7 @@ void traceRecord(Ctx& c, const char* fn, int which, const ProjectOptions& o, con
 // --------------------------------------------------------------------------- projectQ record
 // s: realized to Position with prescribeQ applied.  Returns the outcome; s holds the result.
 Outcome doProjectQ(Ctx& c, Model& M, State& s, const ProjectOptions& o, const std::string& cls,
-                   const std::vector<std::pair<int, double>>& lockedQ, std::string* pathTag = nullptr) {
+                   const std::vector<std::pair<int, double>>& lockedQ, std::string* pathTag = nullptr, vh::Rng* gErr = nullptr) {
     const MultibodySystem& sys = M.system;
     const int nqerr = s.getNQErr(), mQuats = M.matter.getNumQuaternionsInUse(s), mHolo = nqerr - mQuats;
     const bool useInf = o.isOptionSet(ProjectOptions::UseInfinityNorm), force = o.isOptionSet(ProjectOptions::ForceProjection);
@@ -192,10 +201,14 @@ Outcome doProjectQ(Ctx& c, Model& M, State& s, const ProjectOptions& o, const st
     const std::vector<int> pres = complementOf(freeQ(M, s), s.getNQ());
     const double perrIn = normOf(qerr0, 0, mHolo, &Tp, useInf), quatIn = normOf(qerr0, mHolo, mQuats, nullptr, useInf);
 
-    Outcome r = callQ(sys, s, o);
+    Vector errEst;                      // the integrator's q error estimate: empty, or (1 case in 3) a random vector
+    if (gErr && gErr->below(3) == 0) errEst = rvector(*gErr, s.getNQ(), 1e-3);
+    const Vector errEst0 = errEst;
+    Outcome r = callQ(sys, s, o, errEst);
     bool realized = true;
     try { sys.realize(s, Stage::Position); } catch (const std::exception&) { realized = false; }
     const Vector q1 = s.getQ();
+    r.restored = bitDiffs(q0, q1) == 0;
     Vector qerr1(nqerr, kNaN); if (realized) qerr1 = s.getQErr();
 
     vh::Line L = c.I("projQ"); putOpts(L, o); L.i(mHolo).i(mQuats);
@@ -208,8 +221,25 @@ Outcome doProjectQ(Ctx& c, Model& M, State& s, const ProjectOptions& o, const st
     const std::string path = r.limEx ? "limit" : r.its > 0 ? "newton" : r.anyChange || r.status != 0 ? "quatOnly" : "nothing";
     static const char* sn[] = {"Invalid", "Succeeded", "FailedToAchieveAccuracy", "FailedToConverge"};
     vh::D("projQ." + cls + "." + path + "." + sn[r.status + 1] + (r.threw ? ".threw" : ""));
+    if (o.isOptionSet(ProjectOptions::LocalOnly) && r.status == 2 && !r.limEx) vh::D("projQ.localOnly.diverged");
+    if (r.its > 0 && r.status != 0) vh::D(r.restored ? "projQ.newtonFailure.restored" : "projQ.newtonFailure.improved");
     vh::D(std::string("projQ.opts.") + (useInf ? "inf" : "rms") + (force ? ".force" : "") + (o.isOptionSet(ProjectOptions::LocalOnly) ? ".local" : ""));
     if (pathTag) *pathTag = path;
+    {   // decisions within 1e-12 (relative) of their threshold are not predicted by the driver
+        const double lim = o.getProjectionLimit();
+        auto near = [](double a, double b) { return std::abs(a - b) <= 1e-12 * std::abs(b); };
+        if (near(perrIn, acc) || near(quatIn, acc) || (std::isfinite(lim) && near(std::max(perrIn, quatIn), lim))) vh::D("projQ.boundary.notPredicted");
+    }
+    if (errEst0.size()) {
+        // error-estimate blocks of projectQ (:4385-4410) and of normalizeQuaternions: exercised; observed, not predicates
+        vh::D(std::string("projQ.errEst.passed.") + path);
+        if (!finiteV(errEst) && finiteV(q1)) vh::D("obs.projQ.errEst_nonfinite");
+        if (r.status == 0 && !r.threw && finiteV(q1) && finiteV(errEst) && r.anyChange) {
+            double w = 0; for (int f : qi.firstQ) { bool free = true; for (int pi : pres) if (pi == f) free = false; if (!free) continue;
+                double d = 0; for (int i = 0; i < 4; ++i) d += errEst[f + i] * q1[f + i]; w = std::max(w, std::abs(d)); }
+            if (w > 1e-12) vh::D("obs.projQ.errEst_not_orthogonal_to_quaternion");
+        }
+    }
 
     const std::string K = "projectQ." + cls;
     const bool success = (r.status == (int)ProjectResults::Succeeded) && !r.threw;
@@ -237,13 +267,18 @@ Outcome doProjectQ(Ctx& c, Model& M, State& s, const ProjectOptions& o, const st
             vh::P("unchanged", K + ".unchanged", bitDiffs(q0, q1) + (r.anyChange ? 1 : 0) + (r.status != 0 ? 1 : 0), 0);
             vh::D("projQ.satisfiedUnforced");
         }
+        // the complement: ForceProjection "forces it to make at least one iteration" whenever there is a position error at all
+        if (force && !r.limEx && mHolo > 0 && !std::isnan(perrIn) && perrIn > 0) {
+            vh::P("forced_iterates", K + ".forced_iterates", (r.its >= 1 && r.anyChange) ? 0 : 1, 0);
+            vh::D(perrIn <= lo ? "projQ.forced.satisfied" : "projQ.forced.violated");
+        }
     }
     traceRecord(c, "projQt", 0, o, {mHolo, mQuats}, Tp, mHolo, r);
     return r;
 }
 
 // --------------------------------------------------------------------------- projectU record
-Outcome doProjectU(Ctx& c, Model& M, State& s, const ProjectOptions& o, const std::string& cls) {
+Outcome doProjectU(Ctx& c, Model& M, State& s, const ProjectOptions& o, const std::string& cls, vh::Rng* gErr = nullptr) {
     const MultibodySystem& sys = M.system;
     const int m = s.getNUErr();
     const bool useInf = o.isOptionSet(ProjectOptions::UseInfinityNorm), force = o.isOptionSet(ProjectOptions::ForceProjection);
@@ -252,10 +287,14 @@ Outcome doProjectU(Ctx& c, Model& M, State& s, const ProjectOptions& o, const st
     const std::vector<int> pres = complementOf(freeU(M, s), s.getNU());
     const double verrIn = normOf(uerr0, 0, m, &Tpv, useInf);
 
-    Outcome r = callU(sys, s, o);
+    Vector errEst;
+    if (gErr && gErr->below(3) == 0) errEst = rvector(*gErr, s.getNU(), 1e-3);
+    const bool hadErrEst = errEst.size() > 0;
+    Outcome r = callU(sys, s, o, errEst);
     bool realized = true;
     try { sys.realize(s, Stage::Velocity); } catch (const std::exception&) { realized = false; }
     const Vector q1 = s.getQ(), u1 = s.getU();
+    r.restored = bitDiffs(u0, u1) == 0;
     Vector uerr1(m, kNaN); if (realized) uerr1 = s.getUErr();
 
     vh::Line L = c.I("projU"); putOpts(L, o); L.i(m);
@@ -267,6 +306,13 @@ Outcome doProjectU(Ctx& c, Model& M, State& s, const ProjectOptions& o, const st
     const std::string path = r.limEx ? "limit" : r.its > 0 ? "newton" : "nothing";
     static const char* sn[] = {"Invalid", "Succeeded", "FailedToAchieveAccuracy", "FailedToConverge"};
     vh::D("projU." + cls + "." + path + "." + sn[r.status + 1] + (r.threw ? ".threw" : ""));
+    if (o.isOptionSet(ProjectOptions::LocalOnly) && r.status == 2 && !r.limEx) vh::D("projU.localOnly.diverged");
+    {
+        const double lim = o.getProjectionLimit();
+        auto near = [](double a, double b) { return std::abs(a - b) <= 1e-12 * std::abs(b); };
+        if (near(verrIn, acc) || (std::isfinite(lim) && near(verrIn, lim))) vh::D("projU.boundary.notPredicted");
+    }
+    if (hadErrEst) { vh::D("projU.errEst.passed." + path); if (!finiteV(errEst) && finiteV(u1)) vh::D("obs.projU.errEst_nonfinite"); }
 
     const std::string K = "projectU." + cls;
     const bool success = (r.status == (int)ProjectResults::Succeeded) && !r.threw;
@@ -284,6 +330,10 @@ Outcome doProjectU(Ctx& c, Model& M, State& s, const ProjectOptions& o, const st
         if (!force && !std::isnan(verrIn) && verrIn <= lo && !r.limEx) {
             vh::P("unchanged", K + ".unchanged", bitDiffs(u0, u1) + bitDiffs(q0, q1) + (r.anyChange ? 1 : 0) + (r.status != 0 ? 1 : 0), 0);
             vh::D("projU.satisfiedUnforced");
+        }
+        if (force && !r.limEx && !std::isnan(verrIn) && verrIn > 0) {
+            vh::P("forced_iterates", K + ".forced_iterates", (r.its >= 1 && r.anyChange) ? 0 : 1, 0);
+            vh::D(verrIn <= lo ? "projU.forced.satisfied" : "projU.forced.violated");
         }
     }
     traceRecord(c, "projUt", 1, o, {m}, Tpv, m, r);
@@ -308,8 +358,10 @@ double gaussSolve(Mat M, std::vector<double> b, std::vector<double>& x) {
 }
 
 // min-norm record + predicates.  A: m x n, x: correction applied (n), winv: 1/weight per column, tp: row weights, b: rhs (m)
+// The driver gets Wu and u0 and computes the column scale itself (position: 1/Wu; velocity: the model's uRelScale); `winv` is
+// the harness's own reading of the documented scale, used only by the predicates below.
 void minnormRecord(Ctx& c, const std::string& which, const std::string& K, const Matrix& A, const std::vector<int>& free,
-                   const Vector& tp, const Vector& winv, const Vector& b, const Vector& x) {
+                   const Vector& tp, const Vector& winv, const Vector& Wu, const Vector& u0, const Vector& b, const Vector& x) {
     const int m = A.nrow(), n = A.ncol(), nf = (int)free.size();
     if (m == 0 || nf == 0) return;
     // A' = A(:,free) diag(winv_free);  M = A' A'^T
@@ -326,7 +378,8 @@ void minnormRecord(Ctx& c, const std::string& which, const std::string& K, const
     vh::Line L = c.I("minnorm"); L.s(which).i(m).i(n).i(nf); for (int f : free) L.i(f);
     for (int i = 0; i < m; ++i) for (int j = 0; j < n; ++j) L.d(A(i, j));
     for (int i = 0; i < m; ++i) L.d(tp[i]);
-    for (int j = 0; j < n; ++j) L.d(winv[j]);
+    for (int j = 0; j < n; ++j) L.d(Wu[j]);
+    for (int j = 0; j < n; ++j) L.d(u0[j]);
     for (int i = 0; i < m; ++i) L.d(b[i]);
     L.emit();
     std::printf("T 1e-8 1e-10\n");
@@ -354,25 +407,35 @@ void packRecords(Ctx& c, Model& M, const State& s, vh::Rng& g) {
     }
 }
 
-// --------------------------------------------------------------------------- normalizeQuaternions on one Ball
+// --------------------------------------------------------------------------- normalizeQuaternions on one mobilizer
 void normqRecord(Ctx& c, vh::Rng& g) {
-    static MultibodySystem* sys = nullptr; static SimbodyMatterSubsystem* matter = nullptr; static State st;
-    if (!sys) {
-        sys = new MultibodySystem; matter = new SimbodyMatterSubsystem(*sys);
-        MobilizedBody::Ball b(matter->Ground(), Transform(), Body::Rigid(MassProperties(1, Vec3(0), UnitInertia(1))), Transform());
-        st = sys->realizeTopology(); sys->realizeModel(st);
+    // one single-body system per quaternion-carrying mobilizer type (the quaternion is q[0..3] in all of them)
+    static MultibodySystem* sys[5] = {nullptr}; static SimbodyMatterSubsystem* matter[5]; static State st[5];
+    static const char* nm[5] = {"Ball", "Free", "Ellipsoid", "LineOrientation", "FreeLine"};
+    if (!sys[0]) for (int t = 0; t < 5; ++t) {
+        sys[t] = new MultibodySystem; matter[t] = new SimbodyMatterSubsystem(*sys[t]);
+        Body::Rigid body(MassProperties(1, Vec3(0), UnitInertia(1)));
+        MobilizedBody& G = matter[t]->Ground();
+        if (t == 0) MobilizedBody::Ball(G, Transform(), body, Transform());
+        else if (t == 1) MobilizedBody::Free(G, Transform(), body, Transform());
+        else if (t == 2) MobilizedBody::Ellipsoid(G, Transform(), body, Transform());
+        else if (t == 3) MobilizedBody::LineOrientation(G, Transform(), body, Transform());
+        else MobilizedBody::FreeLine(G, Transform(), body, Transform());
+        st[t] = sys[t]->realizeTopology(); sys[t]->realizeModel(st[t]);
     }
+    const int t = g.below(5);
     Vec4 v;
     const int kind = g.below(12);
     const double mag = kind == 0 ? 1e-170 : kind == 1 ? 1e170 : kind == 2 ? 0.0 : std::pow(10.0, g.range(-3.0, 3.0));
     for (int i = 0; i < 4; ++i) v[i] = mag * g.range(-1.0, 1.0);
     if (kind == 3) { v = Vec4(0); v[g.below(4)] = g.signedMag(0.1, 3.0); }
-    State s = st; s.updQ()[0] = v[0]; s.updQ()[1] = v[1]; s.updQ()[2] = v[2]; s.updQ()[3] = v[3];
-    sys->realize(s, Stage::Position);
-    matter->normalizeQuaternions(s);
+    State s = st[t]; Vector q = s.getQ(); const Vector qBefore = [&] { Vector x = q; for (int i = 0; i < 4; ++i) x[i] = v[i]; return x; }();
+    s.updQ() = qBefore;
+    sys[t]->realize(s, Stage::Position);
+    matter[t]->normalizeQuaternions(s);
     vh::Line L = c.I("normq"); for (int i = 0; i < 4; ++i) L.d(v[i]); L.emit();
     vh::Line O = vh::O("normq"); for (int i = 0; i < 4; ++i) O.d(s.getQ()[i]); O.emit();
-    vh::D(kind <= 3 ? "normq.degenerate" : "normq.generic");
+    vh::D(std::string(kind <= 3 ? "normq.degenerate." : "normq.generic.") + nm[t]);
 }
 
 // --------------------------------------------------------------------------- random weights
@@ -437,6 +500,9 @@ void generalCase(Ctx& c, vh::Rng& g) {
             } else { M.bodies[b].lock(s, Motion::Velocity); lockTag = ".lockU"; }
         }
     }
+    // optionally DISABLE one constraint (Instance-stage change): projection must ignore it
+    int disabledIx = -1;
+    if (cons.size() >= 2 && g.below(4) == 0) { disabledIx = g.below((int)cons.size()); cons[disabledIx].c.disable(s); }
     M.system.realize(s, Stage::Instance);
     const bool weighted = g.coin();
     if (weighted) randomWeights(M, g, s);
@@ -444,7 +510,9 @@ void generalCase(Ctx& c, vh::Rng& g) {
     // input class "rawQuatCoord": some holonomic constraint reads a quaternion COMPONENT as a coordinate
     // (ConstantCoordinate / CoordinateCoupler / PrescribedMotion / Custom::getOneQ on a Ball, Free or Ellipsoid q)
     bool rawQuat = false;
-    for (auto& ci : cons) {
+    for (size_t cx = 0; cx < cons.size(); ++cx) {
+        const ConsInfo& ci = cons[cx];
+        if ((int)cx == disabledIx) continue;
         if (!(ci.type == cConstantCoordinate || ci.type == cCoordinateCoupler || ci.type == cPrescribedMotion || ci.type == cCustom)) continue;
         for (size_t i = 0; i < ci.cmobs.size(); ++i) {
             const int k = ci.type == cCustom ? 0 : (i < ci.cq.size() ? ci.cq[i] : 99);
@@ -453,14 +521,40 @@ void generalCase(Ctx& c, vh::Rng& g) {
     }
 
     // ---- assemble with the simple System::project(state, accuracy): no exception == success reported
-    const double accA = std::pow(10.0, -(6 + g.below(5)));
+    // (1 request in 8 is non-positive: ProjectOptions::setRequiredAccuracy then falls back to 1e-4)
+    const double accReq = g.below(8) == 0 ? (g.coin() ? 0.0 : -1e-6) : std::pow(10.0, -(6 + g.below(5)));
+    const double accA = ProjectOptions(accReq).getRequiredAccuracy();
+    const State sPre = s;
     bool threw = false;
-    try { M.system.project(s, accA); } catch (const std::exception&) { threw = true; }
+    try { M.system.project(s, accReq); } catch (const std::exception&) { threw = true; }
+    {
+        // dispatch record: System::project must equal the documented sequence
+        //   realize(Time); prescribeQ; realize(Position); projectQ(opts); prescribeU; realize(Velocity); projectU(opts)
+        // with opts = {accuracy (default 1e-4 if non-positive), overshoot 0.1, no projection limit, no option set}
+        State t = sPre; bool tq = false, tu = false;
+        ProjectOptions om; om.clearOption(ProjectOptions::LocalOnly).clearOption(ProjectOptions::DontThrow).clearOption(ProjectOptions::UseInfinityNorm)
+            .clearOption(ProjectOptions::ForceProjection).clearOption(ProjectOptions::ForceFullNewton);
+        om.setRequiredAccuracy(accReq > 0 ? accReq : 1e-4); om.setOvershootFactor(0.1); om.setProjectionLimit(Infinity);
+        ProjectResults rq, ru; Vector none;
+        try {
+            M.system.realize(t, Stage::Time); M.system.prescribeQ(t); M.system.realize(t, Stage::Position);
+            try { M.system.projectQ(t, none, om, rq); } catch (const std::exception&) { tq = true; }
+            if (!tq) { M.system.prescribeU(t); M.system.realize(t, Stage::Velocity);
+                       try { M.system.projectU(t, none, om, ru); } catch (const std::exception&) { tu = true; } }
+        } catch (const std::exception&) { tq = true; }
+        const ProjectOptions od(accReq);
+        vh::Line L = c.I("dispatch"); L.d(accReq).i(tq).i(tu); L.emit();
+        vh::Line O = vh::O("dispatch"); O.d(od.getRequiredAccuracy()).d(od.getOvershootFactor()).d(od.getProjectionLimit()).i(flagsOf(od)).i(threw);
+        O.i((threw || (bitDiffs(s.getQ(), t.getQ()) == 0 && bitDiffs(s.getU(), t.getU()) == 0)) ? 1 : 0); O.emit();
+        vh::D(accReq > 0 ? "dispatch.positiveAccuracy" : "dispatch.nonPositiveAccuracy");
+    }
     {
         vh::Line L = c.I("chk"); L.s("project"); L.emit(); vh::O("chk").i(1).emit();
         vh::D(std::string("project.random.") + (threw ? "threw" : "returned") + motionTag + lockTag + (weighted ? ".weighted" : ""));
+        vh::D(threw ? "assemble.discarded" : "assemble.kept");
+        if (disabledIx >= 0) vh::D(std::string("cons.disabled.") + consName(cons[disabledIx].type));
         for (auto& ci : cons) vh::D(std::string("cons.") + consName(ci.type));
-        for (int i = 1; i < M.nb(); ++i) vh::D(std::string("mob.") + mobName(M.mtype[i]));
+        tagBodies(M);
         vh::D(M.matter.getUseEulerAngles(s) ? "model.euler" : "model.quaternion");
     }
     if (threw) return;                                   // could not be assembled: discarded
@@ -485,20 +579,26 @@ void generalCase(Ctx& c, vh::Rng& g) {
     const State assembled = s;
 
     // ---- perturbation rounds
-    for (int round = 0; round < 3; ++round) {
+    for (int round = 0; round < 4; ++round) {
         State w = assembled;
-        const double mq = pickMagnitude(g), mu = pickMagnitude(g);
+        // round 3 starts FAR from the manifold (0.3 .. 3): Newton failures, LocalOnly divergence, revert-if-worse
+        const bool far = round == 3;
+        const double mq = far ? g.range(0.3, 3.0) : pickMagnitude(g), mu = far ? g.range(0.3, 3.0) : pickMagnitude(g);
         const bool scaleQuats = g.below(4) == 0;
         perturbQ(M, g, w, mq, scaleQuats);
         M.system.realize(w, Stage::Time); M.system.prescribeQ(w); M.system.realize(w, Stage::Position);
-        const std::string cls = rawQuat ? "rawQuatCoord" : (mq == 0 && !scaleQuats) ? "satisfied" : "perturbed";
-        Outcome rq = doProjectQ(c, M, w, randomOptions(g), cls, lockedQ);
+        const std::string cls = rawQuat ? "rawQuatCoord" : (mq == 0 && !scaleQuats) ? "satisfied" : far ? "far" : "perturbed";
+        ProjectOptions oq = randomOptions(g);
+        if (far && g.coin()) oq.setOption(ProjectOptions::LocalOnly);
+        Outcome rq = doProjectQ(c, M, w, oq, cls, lockedQ, nullptr, &g);
         if (!finiteV(w.getQ())) continue;
         // velocity level
         { Vector u = w.getU(); for (int i = 0; i < u.size(); ++i) u[i] += mu * g.range(-1.0, 1.0); w.updU() = u; }
         M.system.realize(w, Stage::Position); M.system.prescribeU(w);
         try { M.system.realize(w, Stage::Velocity); } catch (const std::exception&) { continue; }
-        doProjectU(c, M, w, randomOptions(g), mu == 0 ? "satisfied" : "perturbed");
+        ProjectOptions ou = randomOptions(g);
+        if (far && g.coin()) ou.setOption(ProjectOptions::LocalOnly);
+        doProjectU(c, M, w, ou, mu == 0 ? "satisfied" : far ? "far" : "perturbed", &g);
         (void)rq;
     }
 }
@@ -545,7 +645,7 @@ void linearCase(Ctx& c, vh::Rng& g) {
         Outcome r = doProjectQ(c, M, s, o, "linear", lockedQ, &path);
         if (r.status == 0 && path == "newton" && finiteV(s.getQ())) {
             Vector winv(Wu.size()); for (int i = 0; i < Wu.size(); ++i) winv[i] = 1 / Wu[i];
-            minnormRecord(c, "q", "projectQ.linear", Pq, fr, Tp, winv, perr0, Vector(q0 - s.getQ()));
+            minnormRecord(c, "q", "projectQ.linear", Pq, fr, Tp, winv, Wu, Vector(Wu.size(), 0.0), perr0, Vector(q0 - s.getQ()));
             vh::D("minnorm.q.its" + std::to_string(r.its));
         }
         if (!finiteV(s.getQ())) return;
@@ -562,9 +662,168 @@ void linearCase(Ctx& c, vh::Rng& g) {
         ProjectOptions ou(1e-10); ou.setOption(ProjectOptions::DontThrow); if (g.coin()) ou.setOption(ProjectOptions::UseInfinityNorm);
         Outcome r = doProjectU(c, M, s, ou, "linear");
         if (r.status == 0 && r.its > 0 && finiteV(s.getU())) {
-            minnormRecord(c, "u", "projectU.linear", PV, fr, Tpv, scaleU, uerr0, Vector(u0 - s.getU()));
+            minnormRecord(c, "u", "projectU.linear", PV, fr, Tpv, scaleU, Wu, u0, uerr0, Vector(u0 - s.getU()));
             vh::D("minnorm.u.its" + std::to_string(r.its));
         }
+    }
+}
+
+// --------------------------------------------------------------------------- stream: linearN (N != identity)
+// Constraints LINEAR in q on mobilizers whose kinematic coupling qdot = N(q) u is not the identity (Gimbal, Bushing,
+// Ball/Free/Ellipsoid in Euler-angle mode, SphericalCoords, …; in quaternion mode only non-quaternion coordinates are
+// constrained).  One Newton step is exact:  dq = S (Tp Pq S)_r^+ Tp perr  with  S = Wq^+ = N Wu^-1 N^+  (nq x nq), the
+// documented step.  Exported: Pq (calcPq), N and N^+ column by column (multiplyByN / multiplyByNInv), Wu, Tp, perr.
+// Predicate minnorm_kkt (harness-own):  dq lies in range(S_r S_r^T Pq^T)  (KKT of  min |z|  s.t.  Pq S_r z = perr, dq = S z)
+// and minnorm_solves: Pq dq = perr.
+void minnormNRecord(Ctx& c, Model& M, const State& s0, const Matrix& Pq, const std::vector<int>& free, const Vector& Tp,
+                    const Vector& Wu, const Vector& perr0, const Vector& dq) {
+    const int m = Pq.nrow(), nq = s0.getNQ(), nu = s0.getNU(), nf = (int)free.size();
+    if (m == 0 || nf == 0) return;
+    Matrix N(nq, nu), NInv(nu, nq);
+    for (int j = 0; j < nu; ++j) { Vector e(nu, 0.0), col; e[j] = 1; M.matter.multiplyByN(s0, false, e, col); for (int i = 0; i < nq; ++i) N(i, j) = col[i]; }
+    for (int j = 0; j < nq; ++j) { Vector e(nq, 0.0), col; e[j] = 1; M.matter.multiplyByNInv(s0, false, e, col); for (int i = 0; i < nu; ++i) NInv(i, j) = col[i]; }
+    // S = N Wu^-1 N^+ ;  S_r = S(:, free)
+    Mat S(nq, std::vector<double>(nq, 0.0));
+    for (int i = 0; i < nq; ++i) for (int j = 0; j < nq; ++j) { double t = 0; for (int k = 0; k < nu; ++k) t += N(i, k) / Wu[k] * NInv(k, j); S[i][j] = t; }
+    // G = S_r S_r^T Pq^T   (nq x m)
+    Mat SrSrT(nq, std::vector<double>(nq, 0.0));
+    for (int i = 0; i < nq; ++i) for (int j = 0; j < nq; ++j) { double t = 0; for (int f : free) t += S[i][f] * S[j][f]; SrSrT[i][j] = t; }
+    Mat G(nq, std::vector<double>(m, 0.0));
+    for (int i = 0; i < nq; ++i) for (int k = 0; k < m; ++k) { double t = 0; for (int j = 0; j < nq; ++j) t += SrSrT[i][j] * Pq(k, j); G[i][k] = t; }
+    // least squares fit dq ~ G lam (normal equations, m x m)
+    Mat GtG(m, std::vector<double>(m, 0.0)); std::vector<double> Gtd(m, 0.0), lam;
+    for (int a = 0; a < m; ++a) { for (int b = 0; b < m; ++b) for (int i = 0; i < nq; ++i) GtG[a][b] += G[i][a] * G[i][b]; for (int i = 0; i < nq; ++i) Gtd[a] += G[i][a] * dq[i]; }
+    // conditioning of the constraint set in the weighted space: (Pq S_r)(Pq S_r)^T
+    Mat PS(m, std::vector<double>(nf, 0.0)); for (int k = 0; k < m; ++k) for (int a = 0; a < nf; ++a) { double t = 0; for (int j = 0; j < nq; ++j) t += Pq(k, j) * S[j][free[a]]; PS[k][a] = t; }
+    Mat PP(m, std::vector<double>(m, 0.0)); for (int a = 0; a < m; ++a) for (int b = 0; b < m; ++b) for (int k = 0; k < nf; ++k) PP[a][b] += PS[a][k] * PS[b][k];
+    std::vector<double> dummy; const double cond = gaussSolve(PP, std::vector<double>(m, 1.0), dummy);
+    if (!(cond > 1e-6)) { vh::D("minnormN.skipped.illConditioned"); return; }
+    if (!(gaussSolve(GtG, Gtd, lam) > 0)) { vh::D("minnormN.skipped.illConditioned"); return; }
+    double res = 0, ds = 1e-300, solv = 0, bs = 1e-300;
+    for (int i = 0; i < nq; ++i) { double t = 0; for (int k = 0; k < m; ++k) t += G[i][k] * lam[k]; double d = std::abs(dq[i] - t); if (std::isnan(d)) res = kNaN; else if (!std::isnan(res) && d > res) res = d; ds = std::max(ds, std::abs(dq[i])); }
+    for (int k = 0; k < m; ++k) { double t = 0; for (int j = 0; j < nq; ++j) t += Pq(k, j) * dq[j]; double d = std::abs(t - perr0[k]); if (std::isnan(d)) solv = kNaN; else if (!std::isnan(solv) && d > solv) solv = d; bs = std::max(bs, std::abs(perr0[k])); }
+    vh::Line L = c.I("minnormN"); L.i(m).i(nq).i(nu).i(nf); for (int f : free) L.i(f);
+    for (int i = 0; i < m; ++i) for (int j = 0; j < nq; ++j) L.d(Pq(i, j));
+    for (int i = 0; i < nq; ++i) for (int j = 0; j < nu; ++j) L.d(N(i, j));
+    for (int i = 0; i < nu; ++i) for (int j = 0; j < nq; ++j) L.d(NInv(i, j));
+    for (int i = 0; i < m; ++i) L.d(Tp[i]);
+    for (int j = 0; j < nu; ++j) L.d(Wu[j]);
+    for (int i = 0; i < m; ++i) L.d(perr0[i]);
+    L.emit();
+    std::printf("T 1e-8 1e-10\n");
+    vh::Line O = vh::O("minnormN"); for (int j = 0; j < nq; ++j) O.d(dq[j]); O.emit();
+    vh::D("minnormN.m" + std::to_string(m) + (nf != nq ? ".prescribed" : "") + (nq != nu ? ".quaternion" : ".euler"));
+    vh::P("minnorm_kkt", "projectQ.linearN.minnorm_kkt", res / ds, 1e-8);
+    vh::P("minnorm_solves", "projectQ.linearN.minnorm_solves", solv / std::max(bs, 1e-3), 1e-8);
+}
+
+void linearNCase(Ctx& c, vh::Rng& g) {
+    Model M;
+    // at least one mobilizer with N != identity
+    const std::vector<int> nonId = {mGimbal, mBushing, mBall, mFree, mEllipsoid, mSphericalCoords};
+    std::vector<int> pal = fullPalette();
+    buildTree(M, g, 1 + g.below(4), pal);
+    addRandomBody(M, g, g.below(M.nb()), nonId[g.below((int)nonId.size())]);
+    M.state = M.system.realizeTopology();
+    const bool euler = g.below(3) != 0;
+    if (euler) M.matter.setUseEulerAngles(M.state, true);
+    M.system.realizeModel(M.state);
+    // coordinates that may be constrained: everything except quaternion components (and LineOrientation/FreeLine quaternions)
+    struct QC { int body, k; };
+    std::vector<QC> cand;
+    for (int b = 1; b < M.nb(); ++b) {
+        const int nqb = M.bodies[b].getNumQ(M.state);
+        const bool quat = M.matter.isUsingQuaternion(M.state, M.bodies[b].getMobilizedBodyIndex());
+        for (int k = quat ? 4 : 0; k < nqb; ++k) cand.push_back({b, k});
+    }
+    if (cand.empty()) return;
+    // constraints have to be added before realizeTopology: rebuild is not possible, so pick indices valid in BOTH modes:
+    // the candidates above were computed on a throw-away topology; add the constraints now and realize again.
+    const int nC = 1 + g.below(3);
+    for (int i = 0; i < nC; ++i) {
+        if (g.coin()) { QC q = cand[g.below((int)cand.size())]; Constraint::ConstantCoordinate(M.bodies[q.body], MobilizerQIndex(q.k), g.range(-0.5, 0.5)); }
+        else {
+            const int n = 1 + g.below(3); Array_<MobilizedBodyIndex> mb; Array_<MobilizerQIndex> qi;
+            for (int a = 0; a < n; ++a) { QC q = cand[g.below((int)cand.size())]; mb.push_back(M.bodies[q.body].getMobilizedBodyIndex()); qi.push_back(MobilizerQIndex(q.k)); }
+            Constraint::CoordinateCoupler(M.matter, new QuadFunction(g, n, true), mb, qi);
+        }
+    }
+    M.state = M.system.realizeTopology();
+    if (euler) M.matter.setUseEulerAngles(M.state, true);
+    M.system.realizeModel(M.state);
+    randomState(M, g);
+    State& s = M.state;
+    std::vector<std::pair<int, double>> lockedQ;
+    if (g.below(3) == 0 && M.nb() > 2) {
+        const int b = 1 + g.below(M.nb() - 1);
+        if (M.mtype[b] != mWeld) {
+            const Vector qv = M.bodies[b].getQAsVector(s);
+            M.bodies[b].lockAt(s, qv, Motion::Position); M.system.realizeModel(s);
+            const int f = (int)M.bodies[b].getFirstQIndex(s);
+            for (int i = 0; i < qv.size(); ++i) lockedQ.push_back({f + i, qv[i]});
+        }
+    }
+    M.system.realize(s, Stage::Instance);
+    randomWeights(M, g, s);
+    M.system.realize(s, Stage::Time); M.system.prescribeQ(s); M.system.realize(s, Stage::Position);
+    const int mQuats = M.matter.getNumQuaternionsInUse(s), mHolo = s.getNQErr() - mQuats;
+    if (mHolo == 0) return;
+    ProjectOptions o(1e-10); o.setOption(ProjectOptions::DontThrow);
+    if (g.coin()) o.setOption(ProjectOptions::UseInfinityNorm);
+    if (g.below(3) == 0) o.setOption(ProjectOptions::ForceProjection);
+    Matrix Pq; M.matter.calcPq(s, Pq);
+    const State s0 = s;
+    const Vector q0 = s.getQ(), perr0 = Vector(s.getQErr()(0, mHolo)), Tp = s.getQErrWeights(), Wu = s.getUWeights();
+    const std::vector<int> fr = freeQ(M, s);
+    std::string path;
+    tagBodies(M);
+    Outcome r = doProjectQ(c, M, s, o, "linearN", lockedQ, &path);
+    if (r.status == 0 && path == "newton" && finiteV(s.getQ())) {
+        minnormNRecord(c, M, s0, Pq, fr, Tp, Wu, perr0, Vector(q0 - s.getQ()));
+        vh::D("minnormN.its" + std::to_string(r.its));
+    }
+}
+
+// --------------------------------------------------------------------------- quaternion records on small fixed systems
+// normqP: two Balls, the second one optionally LOCKED at an unnormalised quaternion (prescribed q): normalizeQuaternions
+//         must skip it.   errq: projectQ on an unconstrained Ball with an error estimate: the quaternion is normalised and
+//         the estimate loses its component along it (the early-exit "quaternions only" block).
+void quatRecords(Ctx& c, vh::Rng& g) {
+    static MultibodySystem* sys = nullptr; static SimbodyMatterSubsystem* matter = nullptr; static State st; static MobilizedBody b1, b2;
+    if (!sys) {
+        sys = new MultibodySystem; matter = new SimbodyMatterSubsystem(*sys);
+        Body::Rigid body(MassProperties(1, Vec3(0), UnitInertia(1)));
+        b1 = MobilizedBody::Ball(matter->Ground(), Transform(), body, Transform());
+        b2 = MobilizedBody::Ball(b1, Transform(Vec3(1, 0, 0)), body, Transform());
+        st = sys->realizeTopology(); sys->realizeModel(st);
+    }
+    {
+        State s = st;
+        Vector v1 = rvector(g, 4, 2.0), v2 = rvector(g, 4, 2.0);
+        const bool lock2 = g.coin();
+        if (lock2) { b2.lockAt(s, v2, Motion::Position); sys->realizeModel(s); }
+        Vector q(8); for (int i = 0; i < 4; ++i) { q[i] = v1[i]; q[4 + i] = v2[i]; }
+        s.updQ() = q;
+        sys->realize(s, Stage::Position);
+        matter->normalizeQuaternions(s);
+        vh::Line L = c.I("normqP"); L.i(1).i(lock2 ? 0 : 1); for (int i = 0; i < 8; ++i) L.d(q[i]); L.emit();
+        vh::Line O = vh::O("normqP"); for (int i = 0; i < 8; ++i) O.d(s.getQ()[i]); O.emit();
+        vh::D(lock2 ? "normqP.secondPrescribed" : "normqP.bothFree");
+    }
+    {
+        static MultibodySystem* sys1 = nullptr; static SimbodyMatterSubsystem* m1 = nullptr; static State st1;
+        if (!sys1) { sys1 = new MultibodySystem; m1 = new SimbodyMatterSubsystem(*sys1);
+            MobilizedBody::Ball b(m1->Ground(), Transform(), Body::Rigid(MassProperties(1, Vec3(0), UnitInertia(1))), Transform());
+            st1 = sys1->realizeTopology(); sys1->realizeModel(st1); }
+        State s = st1;
+        Vector v = rvector(g, 4, 2.0); if (std::abs(v.norm() - 1) < 1e-3) v *= 1.5;
+        Vector e = rvector(g, 4, 1.0), e0 = e;
+        s.updQ() = v; sys1->realize(s, Stage::Position);
+        ProjectOptions o(1e-10); o.setOption(ProjectOptions::DontThrow); ProjectResults r;
+        sys1->projectQ(s, e, o, r);
+        vh::Line L = c.I("errq"); for (int i = 0; i < 4; ++i) L.d(v[i]); for (int i = 0; i < 4; ++i) L.d(e0[i]); L.emit();
+        vh::Line O = vh::O("errq"); for (int i = 0; i < 4; ++i) O.d(s.getQ()[i]); for (int i = 0; i < 4; ++i) O.d(e[i]); O.emit();
+        vh::D("errq");
     }
 }
 
@@ -574,14 +833,14 @@ void linearCase(Ctx& c, vh::Rng& g) {
 // (c) a velocity constraint without any real solution (quadratic SpeedCoupler).
 void degenerateCase(Ctx& c, vh::Rng& g) {
     Model M;
-    M.bodies.push_back(M.matter.Ground()); M.parent.push_back(0); M.mtype.push_back(-1);
+    M.bodies.push_back(M.matter.Ground()); M.parent.push_back(0); M.mtype.push_back(-1); M.reversed.push_back(false);
     Body::Rigid body(MassProperties(1, Vec3(0), UnitInertia(1)));
     const int variant = g.below(3);
     if (variant == 2) {
         // (c) Pin + SpeedCoupler f(u) = c + b u^2/2 with c,b > 0: no real root; projectU's fixed-Jacobian Newton iteration
         //     started at a small u overshoots and then grows super-exponentially (finite input, 7 iterations)
         MobilizedBody::Pin b1(M.matter.Ground(), Transform(), body, Transform());
-        M.bodies.push_back(b1); M.parent.push_back(0); M.mtype.push_back(mPin);
+        M.bodies.push_back(b1); M.parent.push_back(0); M.mtype.push_back(mPin); M.reversed.push_back(false);
         QuadFunction* f = new QuadFunction(g, 1, true); f->c = g.range(0.5, 2.0); f->a[0] = 0; f->b[0] = g.range(0.5, 2.0);
         Array_<MobilizedBodyIndex> mb, qb; Array_<MobilizerUIndex> ui; Array_<MobilizerQIndex> qi;
         mb.push_back(b1.getMobilizedBodyIndex()); ui.push_back(MobilizerUIndex(0));
@@ -597,7 +856,7 @@ void degenerateCase(Ctx& c, vh::Rng& g) {
         const bool free = g.coin();
         MobilizedBody b1 = free ? (MobilizedBody)MobilizedBody::Free(M.matter.Ground(), Transform(), body, Transform())
                                 : (MobilizedBody)MobilizedBody::Ball(M.matter.Ground(), Transform(), body, Transform());
-        M.bodies.push_back(b1); M.parent.push_back(0); M.mtype.push_back(free ? mFree : mBall);
+        M.bodies.push_back(b1); M.parent.push_back(0); M.mtype.push_back(free ? mFree : mBall); M.reversed.push_back(false);
         const bool withCons = g.coin();
         if (withCons) Constraint::Rod(M.matter.Ground(), Vec3(0, 1, 0), b1, Vec3(0.5, 0, 0), g.range(0.8, 1.2));   // takes the Newton path
         M.state = M.system.realizeTopology(); M.system.realizeModel(M.state);
@@ -608,7 +867,7 @@ void degenerateCase(Ctx& c, vh::Rng& g) {
         return;
     }
     MobilizedBody::Slider b1(M.matter.Ground(), Transform(), body, Transform());          // slides along x
-    M.bodies.push_back(b1); M.parent.push_back(0); M.mtype.push_back(mSlider);
+    M.bodies.push_back(b1); M.parent.push_back(0); M.mtype.push_back(mSlider); M.reversed.push_back(false);
     const double h = g.range(2.0, 6.0), d = g.range(0.05, 1.0);                            // rod shorter than the distance to the line
     Constraint::Rod(M.matter.Ground(), Vec3(0, h, 0), b1, Vec3(0), d);
     M.state = M.system.realizeTopology(); M.system.realizeModel(M.state);
@@ -624,8 +883,10 @@ void oneCase(uint64_t seed, long k) {
     const int stream = (int)(k % 16);
     try {
         normqRecord(c, g);
+        if (k % 4 == 0) quatRecords(c, g);
         if (stream == 7) degenerateCase(c, g);
         else if (stream % 4 == 1) linearCase(c, g);
+        else if (stream % 4 == 3) linearNCase(c, g);
         else generalCase(c, g);
     } catch (const std::exception& e) {
         vh::Line L = c.I("chk"); L.s("exception"); L.emit();
